@@ -605,13 +605,19 @@ def tree_10(ctx, rep):
     funcs = [f] + list(f.nested.values())
     names = {g.name for g in funcs}
     n_ret = 0
+    sn = ctx.cg.self_name(f)
+    # names (of the method itself, visible in its closures) that hold the children list
+    child_lists = {'%s.children' % sn}
+    for n in walk_own(f.node):
+        if isinstance(n, ast.Assign) and len(n.targets) == 1 and isinstance(n.targets[0], ast.Name) \
+                and norm(n.value) == '%s.children' % sn:
+            child_lists.add(n.targets[0].id)
     for g in funcs:
-        sn = ctx.cg.self_name(f)
         # locals that hold a child selected by index
         located = set()
         for n in walk_own(g.node):
             if isinstance(n, ast.Assign) and len(n.targets) == 1 and isinstance(n.targets[0], ast.Name) \
-                    and isinstance(n.value, ast.Subscript) and norm(n.value.value) == '%s.children' % sn:
+                    and isinstance(n.value, ast.Subscript) and norm(n.value.value) in child_lists:
                 located.add(n.targets[0].id)
         for n in walk_own(g.node):
             if not isinstance(n, ast.Return) or n.value is None:
@@ -623,7 +629,7 @@ def tree_10(ctx, rep):
                 ok = True
             elif isinstance(v, ast.Name) and v.id in located:
                 ok = True
-            elif isinstance(v, ast.Subscript) and norm(v.value) == '%s.children' % sn:
+            elif isinstance(v, ast.Subscript) and norm(v.value) in child_lists:
                 ok = True
             elif isinstance(v, ast.Call):
                 fn = v.func
@@ -690,4 +696,4 @@ def tree_11(ctx, rep):
                     rep.skip('TREE-11', rel, f.qual, norm(n), 'container expression not classified')
                     continue
                 rep.ob('TREE-11', rel, f.qual, norm(n), ok, why)
-    rep.minimum('TREE-11', 10)
+    rep.minimum('TREE-11', 3)
